@@ -10,8 +10,9 @@ CFG = {
     # tier: list of (label, constants)
     "quick": [
         ("maxPk0-3/len5", dict(SeqAlpha="{0, 1, 65535}", MaxPks="{0, 1, 2, 3}", MaxLen=5)),
-        # deep probation: two sources, long enough for the consecutive-run and majority rules to compete
-        ("maxPk7/len8", dict(Addrs='{"A", "B"}', SeqAlpha="{0, 1, 2}", MaxPks="{7}", MaxLen=8,
+        # deep probation: two sources, long enough for the consecutive-run and majority rules to compete; the only
+        # three-step consecutive run in this alphabet is 65535,0,1, so every consecutive-run scenario crosses the wrap
+        ("maxPk7/len8", dict(Addrs='{"A", "B"}', SeqAlpha="{0, 1, 65535}", MaxPks="{7}", MaxLen=8,
                                InitRemotes='{"A"}')),
     ],
     "thorough": [
@@ -26,7 +27,7 @@ SIM = {
     # random deep behaviours (G-sim): TLC -simulate prints every enabled out-edge of every state it visits, each with
     # the real (unmerged) history that led there - this reaches what the BFS transition cover cannot: states whose
     # shortest history is short but which are also reached by long histories (reset in mid-probation, re-enable, ...)
-    "quick": dict(num=120, depth=14, consts=dict(SeqAlpha="{0, 1, 2}", MaxPks="{1, 2, 3, 4, 5, 6}", MaxLen=13)),
+    "quick": dict(num=120, depth=14, consts=dict(SeqAlpha="{0, 1, 2, 65535}", MaxPks="{1, 2, 3, 4, 5, 6}", MaxLen=13)),
     "thorough": dict(num=3000, depth=22, consts=dict(SeqAlpha="{0, 1, 2, 3, 65535}", MaxPks="{0, 1, 2, 3, 4, 5, 6, 7, 8}",
                                                       MaxLen=21)),
 }
